@@ -190,6 +190,10 @@ def long_inputs(rng, maxlen, big_path):
 
 
 def run(ctx):
+    # first, and check-pointed: inputs that may keep the regular-expression engine busy for
+    # ever would otherwise take the whole shard (and its observations) with them
+    run_hang_lane(ctx)
+    ctx.checkpoint()
     contracts.install_parse()
     st = State()
     st.lexer, st.parser = ODataLexer(), ODataParser()
@@ -302,9 +306,142 @@ def fold_variants(text):
     yield text.title()
 
 
+HANG_CHILD = r"""
+import sys, json, time
+sys.path.insert(0, sys.argv[1])
+from odata_query.grammar import ODataLexer, ODataParser
+from odata_query import exceptions
+cases = json.load(open(sys.argv[2]))
+start = int(sys.argv[3])
+for i in range(start, len(cases)):
+    print("START %d" % i, flush=True)
+    t0 = time.time()
+    try:
+        ODataParser().parse(ODataLexer().tokenize(cases[i]))
+        out = "node"
+    except exceptions.ODataException as e:
+        out = "lib:" + type(e).__name__
+    except RecursionError:
+        out = "foreign:RecursionError"
+    except Exception as e:
+        out = "foreign:" + type(e).__name__
+    print("END %d %s %.3f" % (i, out, time.time() - t0), flush=True)
+"""
+
+
+def hang_cases():
+    """Quoted literals that never close (and close late): matching them must fail fast.
+    Time spent inside the regular-expression engine is invisible to the step monitor, so
+    these run in a child process that the parent watches."""
+    openers = ["geography'", "a eq geography'", "geo.intersects(area, geography'", "duration'",
+               "a eq duration'", "'", "a eq '", "contains(s, '", "x in ('a', '"]
+    bodies = ["SRID=4326;POLYGON((0 0, 10 0, 10 10, 0 10, 0 0))", "x" * 30, "x" * 48, "x" * 400,
+              "a b " * 16, "P1Y2M3DT4H5M6S" * 4, "1" * 40 + "D", "''" * 12 + "y" * 32,
+              "(" * 40, "%_\\" * 12, "\u00e9" * 40, " " * 50]
+    enders = ["", ")", " eq 1", "\n"]
+    out = []
+    for o in openers:
+        for b in bodies:
+            for e in enders:
+                out.append(o + b + e)
+    return out
+
+
+def run_hang_lane(ctx, per_case_s=20.0, confirm_s=30.0):
+    import subprocess
+    import sys
+    import tempfile
+    import os
+    import json
+    import select
+    cases = hang_cases()
+    mine = [c for i, c in enumerate(cases) if ctx.mine(i)]
+    if not mine:
+        return
+    repo = os.environ.get("VERIF_REPO", "/repo")
+    d = tempfile.mkdtemp(prefix="vpmon_c10_")
+    try:
+        cf = os.path.join(d, "cases.json")
+        json.dump(mine, open(cf, "w"))
+        pos = 0
+        confirmed_hangs = []
+        while pos < len(mine):
+            p = subprocess.Popen([sys.executable, "-c", HANG_CHILD, repo, cf, str(pos)],
+                                 stdout=subprocess.PIPE, stderr=subprocess.DEVNULL, text=True)
+            current, started = None, None
+            stalled = False
+            import time as _t
+            while True:
+                r, _, _ = select.select([p.stdout], [], [], 1.0)
+                if r:
+                    line = p.stdout.readline()
+                    if not line:
+                        break
+                    parts = line.split()
+                    if parts[0] == "START":
+                        current, started = int(parts[1]), _t.time()
+                    elif parts[0] == "END":
+                        i, out = int(parts[1]), parts[2]
+                        ctx.count("evaluations")
+                        ctx.count("unterminated_literal_cases")
+                        ctx.cls("hang-lane")
+                        ctx.seen(["hang", mine[i]])
+                        ctx.note_max("slowest_unterminated_literal_ms", int(float(parts[3]) * 1000))
+                        if out.startswith("foreign"):
+                            ctx.fail({"text": mine[i], "gen": "hang-lane"},
+                                     "parse outcome is not node/library-error", observed=out,
+                                     cls="hang-lane", sig=["hang-foreign", out])
+                        pos = i + 1
+                        current = None
+                elif current is not None and _t.time() - started > per_case_s:
+                    stalled = True
+                    break
+                elif p.poll() is not None and not r:
+                    break
+            if stalled:
+                p.kill()
+                p.wait()
+                text = mine[current]
+                # confirm on its own, from a fresh process, with a longer limit
+                single = os.path.join(d, "single.json")
+                json.dump([text], open(single, "w"))
+                try:
+                    subprocess.run([sys.executable, "-c", HANG_CHILD, repo, single, "0"],
+                                   stdout=subprocess.DEVNULL, stderr=subprocess.DEVNULL,
+                                   timeout=confirm_s)
+                    ctx.count("slow_case_not_confirmed")
+                except subprocess.TimeoutExpired:
+                    ctx.count("evaluations")
+                    ctx.fail({"text": text, "gen": "hang-lane", "length": len(text)},
+                             "parse does not terminate within a bound proportional to the input "
+                             "(%d characters: no outcome after %.0f s, twice, in fresh processes; "
+                             "the slowest other case of this lane took milliseconds)"
+                             % (len(text), confirm_s),
+                             expected="an outcome within milliseconds", observed="still running",
+                             cls="hang-lane", sig=["hang", text[:12]])
+                    ctx.checkpoint()
+                    confirmed_hangs.append(text)
+                pos = current + 1
+                if len(confirmed_hangs) >= 2:
+                    ctx.count("hang_lane_abandoned_after_two_confirmed")
+                    break
+            else:
+                p.wait()
+                if pos < len(mine) and current is None and p.returncode not in (0, None):
+                    ctx.mark_inconclusive("hang-lane child exited with %s" % p.returncode)
+                    break
+                if pos >= len(mine):
+                    break
+    finally:
+        import shutil
+        shutil.rmtree(d, ignore_errors=True)
+
+
 def requirements(m):
     out = []
     c = m["counters"]
+    if c.get("unterminated_literal_cases", 0) < 100:
+        out.append("fewer than 100 unterminated-literal cases finished")
     if not m["classes"].get("casefold"):
         out.append("case-folding spellings never exercised")
     if c.get("M-parse", 0) == 0:
@@ -321,6 +458,26 @@ def requirements(m):
 
 
 def replay(ctx, case):
+    if case.get("gen") == "hang-lane":
+        import json
+        import os
+        import subprocess
+        import sys
+        import tempfile
+        d = tempfile.mkdtemp(prefix="vpmon_c10r_")
+        try:
+            f = os.path.join(d, "c.json")
+            json.dump([case["text"]], open(f, "w"))
+            try:
+                r = subprocess.run([sys.executable, "-c", HANG_CHILD, os.environ.get("VERIF_REPO", "/repo"), f, "0"],
+                                   capture_output=True, text=True, timeout=30)
+                print(r.stdout.strip())
+            except subprocess.TimeoutExpired:
+                ctx.fail(case, "parse does not terminate within 30 s", observed="still running")
+        finally:
+            import shutil
+            shutil.rmtree(d, ignore_errors=True)
+        return
     st = State()
     st.lexer, st.parser = ODataLexer(), ODataParser()
     st.mon = steps.StepMonitor("odata_query/grammar.py")
